@@ -4,11 +4,11 @@ import json, sys, subprocess, os
 pid, n = sys.argv[1], int(sys.argv[2])
 V = os.path.dirname(os.path.dirname(os.path.abspath(__file__)))
 p = [json.loads(l) for l in open(os.path.join(V, 'properties.jsonl')) if json.loads(l)['id'] == pid][0]
-wt = '/tmp/mut_' + pid
+wt = '/tmp/mut' + os.environ.get('MUT_ROUND', '') + '_' + pid
 if not os.path.exists(wt):
     subprocess.check_call(['git', '-C', '/repo', 'worktree', 'add', '-q', wt, 'HEAD'])
-T = open(os.path.join(V, 'tools', 'prompts', 'mutant_template.txt')).read()
+T = open(os.path.join(V, 'tools', 'prompts', os.environ.get('MUT_TEMPLATE', 'mutant_template.txt'))).read()
 out = T.format(wt=wt, title=p['title'], statement=p['statement'], quant=p['quantifier']['text'], n=n,
                files=', '.join(p['anchors']['files']), pid=pid)
-open('/tmp/mutprompt_%s.txt' % pid, 'w').write(out)
-print('/tmp/mutprompt_%s.txt' % pid)
+open('/tmp/mutprompt%s_%s.txt' % (os.environ.get('MUT_ROUND', ''), pid), 'w').write(out)
+print('/tmp/mutprompt%s_%s.txt' % (os.environ.get('MUT_ROUND', ''), pid))
